@@ -45,7 +45,7 @@ KERNELS = {
 NAT_KERNELS = {"_check_regular_chunks", "to_chunksize"}
 
 GEN_HEADER = r"""
-From CubedV Require Import Model.Util Model.Memory Model.Rechunk Model.Regular Model.Dag Model.FuseGuard Proofs.FuseGuardProofs.
+From CubedV Require Import Model.Util Model.Memory Model.Rechunk Model.Regular Model.Dag Model.FuseGuard Model.Admission Proofs.FuseGuardProofs Proofs.AdmissionProofs.
 From Gen Require Import Gen.
 Local Open Scope Z_scope.
 
@@ -151,6 +151,8 @@ OBJ_KERNELS = {
     "fuse_multiple.fields": ("cubed/primitive/blockwise.py", [("primitive_op", "pview")], [], "Z * Z * Z * Z"),
 }
 FUSE_FIELDS = ["projected_mem", "allowed_mem", "reserved_mem", "num_tasks"]
+# the admission test (cubed/core/plan.py): strictly shaped functions, see translate_admission
+ADMISSION_KERNELS = ["Plan._find_ops_exceeding_memory", "FinalizedPlan.validate", "admission.wiring"]
 
 EQUIV.update({
     "is_fuse_candidate": r"""
@@ -186,6 +188,32 @@ Corollary source_fused_fields_are_dag_fields : forall B (p : primop B) pps,
 Proof. intros. rewrite gen_fuse_multiple_fields_equiv. apply fuse_multiple_fieldsZ_view. Qed.
 """,
 })
+EQUIV.update({
+    "Plan._find_ops_exceeding_memory": r"""
+Lemma gen_find_fold : forall nodes acc,
+  fold_left (fun ops_exceeding t_ => match snd t_ with None => ops_exceeding | Some op =>
+               if gen_exceeds_test op then ops_exceeding ++ [(fst t_, op)] else ops_exceeding end) nodes acc
+  = acc ++ flat_map (fun t : nat * option pview => match snd t with Some op => if exceedsZ op then [(fst t, op)] else [] | None => [] end) nodes.
+Proof.
+  induction nodes as [|[n [op|]] nodes IH]; intros acc; cbn [fold_left flat_map fst snd].
+  - now rewrite app_nil_r.
+  - rewrite IH. change (gen_exceeds_test op) with (exceedsZ op). destruct (exceedsZ op); cbn [app]; [now rewrite <- app_assoc|reflexivity].
+  - rewrite IH. reflexivity.
+Qed.
+Theorem gen__find_ops_exceeding_memory_equiv : forall nodes, gen__find_ops_exceeding_memory nodes = find_exceedingZ nodes.
+Proof. intros. unfold gen__find_ops_exceeding_memory, find_exceedingZ. rewrite gen_find_fold. reflexivity. Qed.
+""",
+    "FinalizedPlan.validate": r"""
+Theorem gen_validate_raises_equiv : forall A (ops : list A), gen_validate_raises ops = validate_raises ops.
+Proof. intros. reflexivity. Qed.
+(* the source's admission test refuses a plan exactly when some operation projects more than it is allowed *)
+Corollary source_admission_spec : forall nodes,
+  gen_validate_raises (gen__find_ops_exceeding_memory nodes) = true <-> exists n op, In (n, Some op) nodes /\ v_proj op > v_allowed op.
+Proof. intros. rewrite gen_validate_raises_equiv, gen__find_ops_exceeding_memory_equiv. apply plan_refused_iff. Qed.
+""",
+    "admission.wiring": "",
+})
+DEPS.update({"FinalizedPlan.validate": ["Plan._find_ops_exceeding_memory"], "admission.wiring": []})
 DEPS.update({"can_fuse_primitive_ops": ["is_fuse_candidate"],
              "can_fuse_multiple_primitive_ops": ["MemoryModeller.allocate", "MemoryModeller.free", "peak_projected_mem", "is_fuse_candidate"],
              "fuse_multiple.fields": ["MemoryModeller.allocate", "MemoryModeller.free", "peak_projected_mem"]})
@@ -446,7 +474,89 @@ class TrObj:
         raise TranslationError(f"statement {type(s).__name__} at line {getattr(s, 'lineno', '?')}")
 
 
+def _method(tree, cls, meth):
+    cnode = next((n for n in ast.walk(tree) if isinstance(n, ast.ClassDef) and n.name == cls), None)
+    fn = next((n for n in (cnode.body if cnode else []) if isinstance(n, ast.FunctionDef) and n.name == meth), None)
+    if fn is None:
+        raise TranslationError(f"{cls}.{meth} not found")
+    return fn
+
+
+def _nodoc(body):
+    return body[1:] if body and isinstance(body[0], ast.Expr) and isinstance(body[0].value, ast.Constant) and isinstance(body[0].value.value, str) else body
+
+
+def translate_admission(name, repo):
+    """cubed/core/plan.py.  Each function must have exactly the shape described here, else the translation fails (closed):
+    _find_ops_exceeding_memory: acc = []; for n, d in dag.nodes(data=True): if "primitive_op" in d: op = d["primitive_op"];
+        if <test over op>: acc.append((n, op)); acc.sort(key=lambda x: x[1].projected_mem, reverse=True); return acc
+    validate: if self._ops_exceeding_memory: ...; raise ...   (nothing else)
+    wiring (no definition, structural obligations): _finalize computes X = self._find_ops_exceeding_memory(dag) on the dag it
+        hands to FinalizedPlan together with X; FinalizedPlan.__init__ stores `ops_exceeding_memory or []` in
+        self._ops_exceeding_memory and no other method assigns it; the first statement of FinalizedPlan.execute is self.validate()"""
+    tree = ast.parse((Path(repo) / "cubed/core/plan.py").read_text())
+    U = ast.unparse
+    if name == "Plan._find_ops_exceeding_memory":
+        fn = _method(tree, "Plan", "_find_ops_exceeding_memory")
+        b = _nodoc(fn.body)
+        if [a.arg for a in fn.args.args] != ["self", "dag"] or len(b) != 4:
+            raise TranslationError("_find_ops_exceeding_memory: signature / number of statements")
+        init, loop, sort, ret = b
+        if not (isinstance(init, ast.Assign) and len(init.targets) == 1 and isinstance(init.targets[0], ast.Name) and U(init.value) == "[]"):
+            raise TranslationError("_find_ops_exceeding_memory: accumulator initialisation")
+        acc = init.targets[0].id
+        if not (isinstance(loop, ast.For) and not loop.orelse and U(loop.target) in ("(n, d)", "n, d") and U(loop.iter) == "dag.nodes(data=True)" and len(loop.body) == 1):
+            raise TranslationError("_find_ops_exceeding_memory: loop header")
+        g = loop.body[0]
+        if not (isinstance(g, ast.If) and not g.orelse and U(g.test) == "'primitive_op' in d" and len(g.body) == 2):
+            raise TranslationError("_find_ops_exceeding_memory: node guard")
+        a, t = g.body
+        if not (isinstance(a, ast.Assign) and U(a) == "op = d['primitive_op']"):
+            raise TranslationError("_find_ops_exceeding_memory: op binding")
+        if not (isinstance(t, ast.If) and not t.orelse and len(t.body) == 1 and U(t.body[0]) == f"{acc}.append((n, op))"):
+            raise TranslationError("_find_ops_exceeding_memory: append")
+        test = TrObj({"op": "pview"}).expr(t.test)
+        if U(sort) != f"{acc}.sort(key=lambda x: x[1].projected_mem, reverse=True)" or U(ret) != f"return {acc}":
+            raise TranslationError("_find_ops_exceeding_memory: sort / return")
+        return (f"Definition gen_exceeds_test (op : pview) : bool := ({test})%Z.\n"
+                "Definition gen__find_ops_exceeding_memory (nodes : list (nat * option pview)) : list (nat * pview) :=\n"
+                "  sort_by_proj_desc (fold_left (fun ops_exceeding t_ => match snd t_ with None => ops_exceeding | Some op =>\n"
+                "      if gen_exceeds_test op then ops_exceeding ++ [(fst t_, op)] else ops_exceeding end) nodes []).\n")
+    if name == "FinalizedPlan.validate":
+        fn = _method(tree, "FinalizedPlan", "validate")
+        b = _nodoc(fn.body)
+        if not (len(b) == 1 and isinstance(b[0], ast.If) and not b[0].orelse and U(b[0].test) == "self._ops_exceeding_memory"
+                and isinstance(b[0].body[-1], ast.Raise) and not any(isinstance(n, (ast.Return, ast.Try, ast.If)) for s_ in b[0].body for n in ast.walk(s_))):
+            raise TranslationError("validate: must be `if self._ops_exceeding_memory: ...; raise ...`")
+        return "Definition gen_validate_raises {A} (ops : list A) : bool := match ops with [] => false | _ => true end.\n"
+    if name == "admission.wiring":
+        fin = _method(tree, "Plan", "_finalize")
+        asg = [s_ for s_ in fin.body if isinstance(s_, ast.Assign) and isinstance(s_.value, ast.Call) and U(s_.value.func) == "self._find_ops_exceeding_memory"]
+        rets = [n for n in ast.walk(fin) if isinstance(n, ast.Return)]
+        if len(asg) != 1 or len(rets) != 1 or fin.body[-1] is not rets[0] or fin.body[-2] is not asg[0]:
+            raise TranslationError("_finalize: the admission list must be computed right before the single return")
+        x, dagname = U(asg[0].targets[0]), U(asg[0].value.args[0])
+        r = rets[0].value
+        if not (isinstance(r, ast.Call) and U(r.func) == "FinalizedPlan" and len(r.args) == 4 and U(r.args[3]) == x and U(r.args[0]) in (dagname, f"nx.freeze({dagname})")):
+            raise TranslationError("_finalize: FinalizedPlan(dag, ..., ops_exceeding_memory) wiring")
+        init = _method(tree, "FinalizedPlan", "__init__")
+        if [a.arg for a in init.args.args][:5] != ["self", "dag", "array_names", "optimized", "ops_exceeding_memory"]:
+            raise TranslationError("FinalizedPlan.__init__ signature")
+        cnode = next(n for n in ast.walk(tree) if isinstance(n, ast.ClassDef) and n.name == "FinalizedPlan")
+        stores = [n for n in ast.walk(cnode) if isinstance(n, ast.Attribute) and n.attr == "_ops_exceeding_memory" and isinstance(n.ctx, (ast.Store, ast.Del))]
+        ok = [s_ for s_ in init.body if U(s_) == "self._ops_exceeding_memory = ops_exceeding_memory or []"]
+        if len(stores) != 1 or len(ok) != 1:
+            raise TranslationError("FinalizedPlan: _ops_exceeding_memory must be assigned once, in __init__, from the argument")
+        ex = _nodoc(_method(tree, "FinalizedPlan", "execute").body)
+        if not ex or U(ex[0]) != "self.validate()":
+            raise TranslationError("FinalizedPlan.execute must call self.validate() first")
+        return "(* admission.wiring: structural obligations on _finalize / FinalizedPlan.__init__ / execute hold *)\n"
+    raise TranslationError(name)
+
+
 def translate_obj(name, repo):
+    if name in ADMISSION_KERNELS:
+        return translate_admission(name, repo)
     path, params, kwonly, result = OBJ_KERNELS[name]
     tree = ast.parse((Path(repo) / path).read_text())
     fname = name.split(".")[0]
@@ -732,7 +842,7 @@ def translate(name, repo=None):
 def check(names=None, repo=None, tag="all"):
     """Translate the named kernels (+ the kernels they call) from `repo`, compile, check their equivalences.
     Returns (ok, message, generated text)."""
-    names = list(names or list(KERNELS) + list(OBJ_KERNELS))
+    names = list(names or list(KERNELS) + list(OBJ_KERNELS) + ADMISSION_KERNELS)
     order = []
     for n in names:
         for d in DEPS.get(n, []) + [n]:
@@ -742,13 +852,13 @@ def check(names=None, repo=None, tag="all"):
     gen = VERIF / "build" / "gen" / (tag + ("" if repo == "/repo" else "_" + "".join(ch if ch.isalnum() else "_" for ch in repo)))
     gen.mkdir(parents=True, exist_ok=True)
     try:
-        defs = [translate_obj(n, repo) if n in OBJ_KERNELS else translate(n, repo) for n in order]
+        defs = [translate_obj(n, repo) if (n in OBJ_KERNELS or n in ADMISSION_KERNELS) else translate(n, repo) for n in order]
     except TranslationError as e:
         return False, f"translation failed (source left the translatable subset or changed signature): {e}", ""
     except Exception as e:
         return False, f"translation failed: {type(e).__name__}: {e}", ""
     text = ("(* GENERATED on every run from /repo by harness/translate.py - do not edit *)\n"
-            "From CubedV Require Import Model.Util Model.Memory Model.Rechunk Model.Regular Model.Dag Model.FuseGuard.\nLocal Open Scope Z_scope.\n\n" + "\n".join(defs))
+            "From CubedV Require Import Model.Util Model.Memory Model.Rechunk Model.Regular Model.Dag Model.FuseGuard Model.Admission.\nLocal Open Scope Z_scope.\n\n" + "\n".join(defs))
     (gen / "Gen.v").write_text(text)
     (gen / "GenEquiv.v").write_text(GEN_HEADER + "".join(EQUIV[n] for n in order))
     for f in ("Gen.v", "GenEquiv.v"):
